@@ -54,6 +54,15 @@ __CPROVER_requires(__CPROVER_is_fresh(res, nn * 8) && __CPROVER_is_fresh(in, nn 
 __CPROVER_assigns(__CPROVER_object_upto(res, nn * 8))
 __CPROVER_ensures(BITS(res, G) == RROT_BITS(in, G, p, nn)) /*@rnx_rotate_is_mul_by_X_p:C09*/
 ;
+// (X^p - 1) product on doubles: rotated coefficient (sign flip = bit flip) minus the coefficient, one IEEE subtraction
+#define RROT_VAL(in, t, p, nn) (ROT_S(t, p, nn) < (nn) ? (in)[ROT_S(t, p, nn)] : -(in)[ROT_S(t, p, nn) - (nn)])
+#define DSAME(x, y) ((x) == (y) || ((x) != (x) && (y) != (y)))
+void rnx_mul_xp_minus_one__c(uint64_t nn, int64_t p, double* res, const double* in)
+__CPROVER_requires(REQ_ROT)
+__CPROVER_requires(__CPROVER_is_fresh(res, nn * 8) && __CPROVER_is_fresh(in, nn * 8))
+__CPROVER_assigns(__CPROVER_object_upto(res, nn * 8))
+__CPROVER_ensures(DSAME(res[G], RROT_VAL(in, G, p, nn) - in[G])) /*@rnx_mul_xp_minus_one_is_aXp_minus_a:C09*/
+;
 void rnx_automorphism__c(uint64_t nn, int64_t p, double* res, const double* in)
 __CPROVER_requires(REQ_ROT && (p & 1) == 1 && REQ_NN && AUT_REL(p, nn))
 __CPROVER_requires(__CPROVER_is_fresh(res, nn * 8) && __CPROVER_is_fresh(in, nn * 8))
@@ -73,3 +82,4 @@ HROT(h_znx_mul_xp_minus_one, znx_mul_xp_minus_one, int64_t)
 HROT(h_znx_automorphism_i64, znx_automorphism_i64, int64_t)
 HROT(h_rnx_rotate_f64, rnx_rotate_f64, double)
 HROT(h_rnx_automorphism_f64, rnx_automorphism_f64, double)
+HROT(h_rnx_mul_xp_minus_one, rnx_mul_xp_minus_one, double)
